@@ -423,7 +423,7 @@ pub fn run_c01(ctx: &Ctx) -> Report {
     // (a) every text-accepting entry point on the E1/E2 spaces
     let mut plan = SweepPlan::standard(ctx);
     if ctx.quick() {
-        // 27 entry points per input: one level less than C03 on the widest alphabets
+        // 32 entry points per input: one level less than C03 on the widest alphabets
         plan.e1_mini_depth = 5;
     }
     let all = sweep(ctx, &plan, &mut rep, &inputs::check_c01_input);
@@ -478,7 +478,7 @@ pub fn run_c01(ctx: &Ctx) -> Report {
         // a deadlock or a livelock between concurrent callers is a hang: shuttle reports both
         super::conc::run_family_mode(ctx, fam, "c01.schedule", &mut rep, true);
     }
-    rep.rule = "Totality. (a) E1 token trees + E2 skeletons and edit neighbourhoods through 27 text-accepting entry points of both crates (parsers, FromStr, canonicalize, try_from_iter, ExtensionsMap, the four subtag constructors); (b) every byte string of length <= 2 and boundary-class strings to length 9 as the argument of 15 getter/setter functions on three receivers; (c) every (language, script, region) of the CLDR universe through maximize, minimize and character_direction; (d) a fixed list of large inputs under the per-case watchdog (5 s of thread CPU time); (e) every call made in the E3 harnesses. The oracle is: the call returns (Ok or Err), no panic, no hang, child exit status 0. distinct_nontrivial = inputs of the E1/E2 trees on which no entry point panicked (distinct by construction).".into();
+    rep.rule = "Totality. (a) E1 token trees + E2 skeletons and edit neighbourhoods through 32 text-accepting entry points of both crates (parsers, FromStr, canonicalize, try_from_iter, ExtensionsMap, the four subtag constructors, serde Deserialize from str / String / JSON and Serialize of every accepted value); (b) every byte string of length <= 2 and boundary-class strings to length 9 as the argument of 15 getter/setter functions on three receivers; (c) every (language, script, region) of the CLDR universe through maximize, minimize and character_direction; (d) a fixed list of large inputs under the per-case watchdog (5 s of thread CPU time); (e) every call made in the E3 harnesses. The oracle is: the call returns (Ok or Err), no panic, no hang, child exit status 0. distinct_nontrivial = inputs of the E1/E2 trees on which no entry point panicked (distinct by construction).".into();
     rep.assumptions = vec!["a hang is a case on which the executing thread spends more than 5 s of CPU time (thread clock, so machine load does not matter), or that stays current for 120 s of wall-clock time while its thread uses no CPU (blocked); abort/stack overflow is observed through the worker's exit status".into()];
     rep
 }
